@@ -256,6 +256,11 @@ func propC01(c *Ctx) {
 		})
 	}
 
+	rsa := c.Rule("scope-agree", "the optimizer forgets shadowed names only at syntax for which every compiler function that compiles the node's contents forks the symbol table (otherwise a name declared there is still in the compiler's scope, e.g. in sibling catch/finally bodies, while the optimizer folds the builtin again)", 1)
+	ruleScopeAgree(c, rsa)
+	rfe := c.Rule("fold-err-agree", "wherever the VM's operator cell returns an error for some operands of a token (zero divisor), the folding table declines under a test of the operand instead of folding to a value", 2)
+	ruleFoldErrAgree(c, rfe)
+
 	// ---- symtab-current ---------------------------------------------------------------------------
 	rs := c.Rule("symtab-current", "whenever the compiler (re)initialises its optimizer, the optimizer's view of the symbol table is set from the compiler's CURRENT scope table: every store to the optimizer's table field takes a parameter, and every caller passes the compiler's symbolTable (a stale table makes the optimizer replace an identifier that a nested scope shadowed)", 2)
 	_, fComp := l.structField(modPath, "SimpleOptimizer", "compSymTab")
